@@ -13,15 +13,15 @@ Open Scope N_scope.
 (** 1. Lock / unlock.  For every sequence of lock()/unlock() calls (lock() never called on an
     already locked connector: it discards what is held, by design), interleaved in any way
     with the arrival of packets: at every reachable state the packets dispatched so far (by
-    the I/O thread or by unlock), then the packets held, then the packet in the I/O thread's
-    hands, are exactly the packets that reached process_message, in arrival order -- whether
+    the I/O thread or by unlock), then the held packet unlock() is about to dispatch, the
+    packets held, the packet in the I/O thread's hands, are exactly the packets that reached process_message, in arrival order -- whether
     they arrived before, during or after an unlock -- and the holding queue of an unlocked
     connector is empty: nothing is ever stranded. *)
 Theorem C05_unlock_exactly_once_in_order :
   forall (cfg : config) (script : list op) (sp : list chunk) (l0 : bool) (sched : list action),
     legacy_unlock cfg = false -> legacy_lock cfg = false -> lock_wf l0 script ->
     let s := run cfg sched (init cfg script sp l0) in
-    dispatched s ++ locked_q s ++ hand_p s = pkts (delivered s)
+    dispatched s ++ hand_u s ++ locked_q s ++ hand_p s = pkts (delivered s)
     /\ (locked s = false -> locked_q s = []).
 Proof. exact unlock_exactly_once_in_order. Qed.
 
@@ -29,7 +29,7 @@ Theorem C05_unlock_at_quiescence :
   forall cfg script sp l0 sched,
     legacy_unlock cfg = false -> legacy_lock cfg = false -> lock_wf l0 script ->
     let s := run cfg sched (init cfg script sp l0) in
-    locked s = false -> hand_p s = [] -> dispatched s = pkts (delivered s).
+    locked s = false -> hand_p s = [] -> hand_u s = [] -> dispatched s = pkts (delivered s).
 Proof. exact unlock_at_quiescence. Qed.
 
 (** The code as found refutes it: the check-then-enqueue race of process_message against
@@ -73,14 +73,17 @@ Theorem C05_sync_legacy_refuted :
     /\ a_pc s = A_Done.
 Proof. exact sync_legacy_refuted. Qed.
 
-(** 3. Bridge.  FULL STATEMENT (refuted by the faithful model of the code that exists,
-    KNOWN-FINDING bridge-created-under-traffic): once everything is idle, the peer device's
-    send queue holds what was held, then what was pending, then what the device emitted,
-    exactly once and in that order. *)
+(** 3. Bridge (both directions, messages of every kind: ordinary packets, packet-type messages
+    without scapy counterpart, non-packet messages).  FULL STATEMENT (refuted by the faithful
+    model of the code that exists, KNOWN-FINDING bridge-created-under-traffic): once
+    everything is idle, each peer send queue holds what was held, then what was pending, then
+    what the device emitted, exactly once and in that order. *)
 Definition C05_bridge_relays_exactly_once_per_direction_statement : Prop :=
-  forall (held ev0 : list msg) (sp : list chunk) (sched : list baction),
-    let s := brun (mkBC false) sched (binit held ev0 sp) in
-    bquiet s = true -> b_peer s = held ++ ev0 ++ msgs_of (concat sp).
+  forall li hi ei spi lo ho eo spo (sched : list baction),
+    let s := brun (mkBC false false) sched (binit2 (sinit li hi ei spi) (sinit lo ho eo spo)) in
+    bquiet s = true ->
+    d_peer (b_in s) = hi ++ ei ++ msgs_of (concat spi)
+    /\ d_peer (b_out s) = ho ++ eo ++ msgs_of (concat spo).
 
 Theorem C05_bridge_relays_exactly_once_per_direction_refuted :
   ~ C05_bridge_relays_exactly_once_per_direction_statement.
@@ -89,38 +92,57 @@ Proof. exact bridge_statement_refuted. Qed.
 (** The two ways it fails: traffic reaching the new wrapper overtakes what was held; an event
     still in the old connector's queue is handled by the old connector, never relayed. *)
 Theorem C05_bridge_witnesses :
-  (exists held ev0 sp sched,
-     let s := brun (mkBC false) sched (binit held ev0 sp) in
-     bquiet s = true /\ b_peer s = [p2; p1] /\ held ++ ev0 ++ msgs_of (concat sp) = [p1; p2])
+  (let s := brun (mkBC false false) br_sched_order (binit [p1] [] [[Some p2]]) in
+   bquiet s = true /\ d_peer (b_in s) = [p2; p1])
   /\
-  (exists held ev0 sp sched,
-     let s := brun (mkBC false) sched (binit held ev0 sp) in
-     bquiet s = true /\ b_peer s = [] /\ b_lost s = [p1] /\ held ++ ev0 ++ msgs_of (concat sp) = [p1]).
+  (let s := brun (mkBC false false) br_sched_loss (binit [] [p1] []) in
+   bquiet s = true /\ d_peer (b_in s) = [] /\ d_lost (b_in s) = [p1]).
 Proof. exact bridge_refuted. Qed.
 
-(** What holds under every schedule: the reader thread survives the creation of the bridge
-    (repaired Connector.__init__) and every message is, with its multiplicity, in exactly one
-    place -- relayed, handled by the old connector instead, held, or still on its way:
-    nothing is relayed twice, nothing vanishes. *)
+(** What holds under EVERY schedule, quiet link or not: the reader threads survive the
+    creation of the bridge (repaired Connector.__init__) and every message of either side is,
+    with its multiplicity, in exactly one place -- relayed, handled by the old connector
+    instead, held, or still on its way: nothing is relayed twice, nothing vanishes. *)
 Theorem C05_bridge_relays_partial :
-  forall (held ev0 : list msg) (sp : list chunk) (sched : list baction) (x : msg),
-    let s := brun (mkBC false) sched (binit held ev0 sp) in
-    b_rpc s <> BR_Dead /\ cnt x (ball s) = cnt x (held ++ ev0 ++ msgs_of (concat sp)).
+  forall q li hi ei spi lo ho eo spo (sched : list baction) (x : msg) (d : dir),
+    let s := brun (mkBC false q) sched (binit2 (sinit li hi ei spi) (sinit lo ho eo spo)) in
+    d_rpc (bside d s) <> BR_Dead
+    /\ cnt x (ball d s) = cnt x (match d with DIn => hi ++ ei ++ msgs_of (concat spi)
+                                          | DOut => ho ++ eo ++ msgs_of (concat spo) end).
 Proof. exact bridge_conservation. Qed.
 
-Theorem C05_bridge_quiescent_partial :
-  forall held ev0 sp sched x,
-    let s := brun (mkBC false) sched (binit held ev0 sp) in
-    bquiet s = true -> b_outq s = [] ->
-    cnt x (b_peer s ++ b_lost s ++ filter (fun m => negb (m_pkt m)) (b_deliv_o s) ++ b_lq s)
-    = cnt x (held ++ ev0 ++ msgs_of (concat sp)).
-Proof. exact bridge_quiescent_accounts_for_all. Qed.
+(** The complement of the finding's class: a bridge created on a quiet link (no event pending
+    in the old connectors; the devices only emit once Bridge.__init__ has returned) relays
+    EVERYTHING exactly once and in per-direction order, under every schedule, whatever the
+    kind of the messages held. *)
+Theorem C05_bridge_quiet_link :
+  forall li hi spi lo ho spo (sched : list baction),
+    (li = false -> hi = []) -> (lo = false -> ho = []) ->
+    let s := brun (mkBC false true) sched (binit2 (sinit li hi [] spi) (sinit lo ho [] spo)) in
+    bdone s = true ->
+    QB hi spi (b_in s) /\ QB ho spo (b_out s).
+Proof. exact bridge_quiet_link. Qed.
+
+Theorem C05_bridge_quiet_link_quiescent :
+  forall li hi spi lo ho spo (sched : list baction),
+    (li = false -> hi = []) -> (lo = false -> ho = []) ->
+    let s := brun (mkBC false true) sched (binit2 (sinit li hi [] spi) (sinit lo ho [] spo)) in
+    bquiet s = true ->
+    d_peer (b_in s) = hi ++ msgs_of (concat spi) /\ d_peer (b_out s) = ho ++ msgs_of (concat spo).
+Proof. exact bridge_quiet_link_quiescent. Qed.
 
 (** Connector.__init__ as found: the device was given the half-built connector; the reader
     thread dies on it. *)
 Theorem C05_bridge_legacy_ctor_refuted :
-  exists sp sched, b_rpc (brun (mkBC true) sched (binit [] [] sp)) = BR_Dead.
+  exists sp sched, d_rpc (b_in (brun (mkBC true false) sched (binit [] [] sp))) = BR_Dead.
 Proof. exact bridge_legacy_ctor_refuted. Qed.
+
+Example C05_nonvacuous_quiet :
+  let s := brun (mkBC false true) nvq_sched
+             (binit2 (sinit true nvq_hi [] [[Some (mkMsg 7 4 false)]]) (sinit true nvq_ho [] [[Some (mkMsg 0 13 true)]])) in
+  bquiet s = true
+  /\ d_peer (b_in s) = nvq_hi ++ [mkMsg 7 4 false] /\ d_peer (b_out s) = nvq_ho ++ [mkMsg 0 13 true].
+Proof. exact nonvacuous_quiet. Qed.
 
 (** Non-vacuity: a locked connector holding nothing receives two packets while unlock() runs;
     under a concrete schedule both are dispatched in order and nothing is left behind. *)
